@@ -96,6 +96,8 @@ pub struct Sig {
     pub vis: &'static str,
     /// `T: 'l` for `&'l T` parameters is written inline where `T` is declared (`T: Default + 'l`), not in the where clause
     pub outlives_inline: bool,
+    /// the extra type parameter's bounds mention the dependency's type parameter (`T: Default + Rel<D>`; named-generic deps)
+    pub gen_mentions_deps: bool,
     /// a type parameter `P` and a const parameter `K` that appear in no parameter type and not in the return type:
     /// callers name them (turbofish / trait arguments), nothing can infer them
     pub phantom: bool,
@@ -236,6 +238,9 @@ impl Sig {
             if self.is_async && !self.maybe_send_off {
                 b.push("Send");
                 b.push("Sync");
+            }
+            if self.gen_mentions_deps && !self.deps_maybe_sized && matches!(self.deps, Deps::RefGeneric | Deps::ValGeneric) {
+                b.push("Rel<D>");
             }
             let mut inline_outlives = false;
             if self.explicit_outlives && self.params.iter().any(|p| matches!(p, PTy::RefGenNamed(_))) {
@@ -617,7 +622,7 @@ pub fn gen_sig(t: &mut Tape, excl: &Excl) -> Sig {
     }
     let has_const = params.iter().any(|p| *p == PTy::ArrConst);
     Sig {
-        concrete_ty: *t.pick(&["Conf", "Conf", "inner::PConf", "GConf<i32>", "self::inner::PConf"]),
+        concrete_ty: *t.pick(&["Conf", "Conf", "inner::PConf", "GConf<i32>", "self::inner::PConf", "<Sel as HasConf>::C", "::std::string::String"]),
         deps,
         bounds,
         bounds_in_where,
@@ -641,6 +646,7 @@ pub fn gen_sig(t: &mut Tape, excl: &Excl) -> Sig {
         maybe_send_off,
         vis: *t.pick(&["", "pub", "pub(crate)"]),
         outlives_inline: t.flip(),
+        gen_mentions_deps: t.chance(1, 4),
         phantom: t.chance(1, 6),
     }
 }
@@ -666,7 +672,8 @@ pub struct Case {
 
 fn header() -> String {
     let mut s = String::from(
-        "#![allow(warnings)]\nuse ::core::marker::PhantomData;\nuse ::core::future::Future;\n\
+        "#![allow(warnings)]\n#![deny(unsafe_op_in_unsafe_fn)]\nuse ::core::marker::PhantomData;\nuse ::core::future::Future;\n\
+         pub struct Sel;\npub trait HasConf { type C; }\nimpl HasConf for Sel { type C = Conf; }\npub trait Rel<X> {}\nimpl<X> Rel<X> for i64 {}\n\
          pub struct App;\npub struct Conf { pub s: String }\npub mod inner { pub struct PConf { pub s: String } }\npub struct GConf<T> { pub s: String, pub t: T }\npub type A = ::entrait::Impl<App>;\n\
          fn out<F: Future>(_: &F) -> PhantomData<F::Output> { PhantomData }\nfn is_send<T: Send>(_: &T) {}\n\
          pub trait LtLabel<'l> {}\nimpl<'l> LtLabel<'l> for (u8, i8) {}\nimpl<'l> LtLabel<'l> for [u8; 2] {}\nimpl<'l> LtLabel<'l> for fn(u8) -> u8 {}\n",
@@ -688,8 +695,7 @@ pub fn gen_case(t: &mut Tape, excl: &Excl) -> Case {
     }
     for _ in 0..t.weighted(&[4, 2, 1]) {
         let o = *t.pick(&["export = false", "mock_api = TheMock", "unimock = false", "mockall = false", "no_deps = false"]);
-        // (don't-care: unimock's own un-mocked call of a fn whose parameters cannot be inferred)
-        if !opts.iter().any(|x| x.split(' ').next() == o.split(' ').next()) && !(o.starts_with("no_deps") && sig.deps == Deps::NoDeps) && !(o.starts_with("mock_api") && sig.phantom) {
+        if !opts.iter().any(|x| x.split(' ').next() == o.split(' ').next()) && !(o.starts_with("no_deps") && sig.deps == Deps::NoDeps) {
             opts.push(o.to_string());
         }
     }
@@ -781,6 +787,12 @@ pub fn gen_case(t: &mut Tape, excl: &Excl) -> Case {
     }
     if sig.phantom {
         classes.push("type_and_const_parameters_not_inferable_from_the_call");
+    }
+    if sig.has_gen && sig.gen_mentions_deps && !sig.deps_maybe_sized && matches!(sig.deps, Deps::RefGeneric | Deps::ValGeneric) {
+        classes.push("extra_type_parameter_bound_mentions_the_dependency_parameter");
+    }
+    if sig.concrete() && (sig.concrete_ty.starts_with('<') || sig.concrete_ty.starts_with("::")) {
+        classes.push("concrete_deps_qualified_or_absolute_path");
     }
     if sig.has_gen && sig.explicit_outlives && sig.outlives_inline && sig.params.iter().any(|p| matches!(p, PTy::RefGenNamed(_))) {
         classes.push("inline_outlives_bound_on_extra_type_parameter");
